@@ -19,9 +19,15 @@ class Recorder:
         self.calls = []
         self.counts = {}
         self.probe = probe
+        self.events = []        # (operator, length of the effect log at invocation)
+        self.run = None         # the current tracer world (vf.minipy.Run), set by the replay harness
 
     def count(self, op):
         self.counts[op] = self.counts.get(op, 0) + 1
+        self.events.append([OPNAME.get(op, op), len(self.run.log) if self.run is not None else -1])
+
+
+OPNAME = {'converted_call': 'call'}
 
 
 class _Sentinel:
